@@ -2,6 +2,7 @@ package props
 
 import (
 	"fmt"
+	"hash/fnv"
 	"sync"
 	"sync/atomic"
 	"testing"
@@ -17,6 +18,18 @@ import (
 
 // connMonitor is the online per-connection monitor: in-flight handlers and
 // arrival order. Its own state is atomics / a mutex, so it cannot be the race.
+// globalOrder records the interleaving of handler entries across connections.
+type globalOrder struct {
+	mu  sync.Mutex
+	seq []byte
+}
+
+func (g *globalOrder) add(conn int) {
+	g.mu.Lock()
+	g.seq = append(g.seq, byte(conn))
+	g.mu.Unlock()
+}
+
 type connMonitor struct {
 	inflight atomic.Int32
 	mu       sync.Mutex
@@ -73,6 +86,7 @@ func c08Msg(conn int, seq uint32, body int, rotate bool) []byte {
 }
 
 func runC08(c *ev.Case, ctx *lib.Ctx, sc c08Scenario) {
+	order := &globalOrder{}
 	mons := make([]*connMonitor, sc.K)
 	conns := make([]*memnet.Conn, sc.K)
 	byAddr := map[string]int{}
@@ -81,6 +95,7 @@ func runC08(c *ev.Case, ctx *lib.Ctx, sc c08Scenario) {
 	hf := diam.HandlerFunc(func(dc diam.Conn, m *diam.Message) {
 		i := byAddr[dc.RemoteAddr().String()]
 		seq := m.Header.HopByHopID
+		order.add(i)
 		mons[i].enter(seq)
 		switch sc.handler {
 		case 1:
@@ -210,6 +225,13 @@ func runC08(c *ev.Case, ctx *lib.Ctx, sc c08Scenario) {
 			fail = true
 		}
 		c.Event("handler_invocations", n)
+	}
+	if !fail && sc.K > 1 {
+		fp := fnv.New64a()
+		order.mu.Lock()
+		fp.Write(order.seq)
+		order.mu.Unlock()
+		c.Class("interleaving/%03x", fp.Sum64()%4096)
 	}
 	// tear down so that the bubble can end
 	for i := range conns {
